@@ -7,7 +7,7 @@
                        are within the range of the DSDL element type.
    db_wok db : what pydsdl guarantees of every type database (a union has options, signed widths <= 64). *)
 From Coq Require Import List NArith ZArith Bool.
-From Verif Require Import PyObj Gen_PyObj Gen_Pin_c18support PyObjThm PyObjThmRt PyObjThmRt2 PyObjThmWrap PyObjThmStart PyObjThmMut PyObjThmRound PyObjThmRepr PyObjThmRun PyObjLaws PyModelAttr PyObjThmReject
+From Verif Require Import PyObj Gen_PyObj Gen_Pin_c18support PyObjThm PyObjThmRt PyObjThmRt2 PyObjThmWrap PyObjThmStart PyObjThmMut PyObjThmRound PyObjThmRepr PyObjThmRun PyObjLaws PyModelAttr PyObjThmReject PyAlias Gen_PyAlias PyAliasThm
   Gen_Pin_c18model.
 Import ListNotations.
 Open Scope Z_scope.
@@ -336,6 +336,26 @@ Theorem C18_model_attr_restored : forall (model bytes : Type) (pickle : model ->
   forall m, restore model bytes unpickle gunz b85dec (filter_pickle model bytes pickle gz b85enc strip m) = m.
 Proof. exact restore_filter_pickle. Qed.
 Print Assumptions C18_model_attr_restored.
+
+(* PACKAGE ALIASES `Name_major` (filter_newest_minor_version_aliases, translated from its `ast`; versions are naturals of any size):
+   every alias is bound to a type of that name and major version whose minor version is NUMERICALLY the greatest, and every
+   (name, major) of the namespace has its alias.  The run checks `ns.Name_major is ns.Name_major_<greatest minor>` on the real packages. *)
+Theorem C18_alias_is_newest_minor : forall tys name major t,
+  In (name, major, t) (aliases_gen tys) ->
+  In t tys /\ v_name t = name /\ v_major t = major /\
+  forall t', In t' tys -> v_name t' = name -> v_major t' = major -> (v_minor t' <= v_minor t)%nat.
+Proof. exact alias_is_newest_minor. Qed.
+Print Assumptions C18_alias_is_newest_minor.
+
+Theorem C18_alias_exists : forall tys t, In t tys -> exists t', In (v_name t, v_major t, t') (aliases_gen tys).
+Proof. exact alias_exists. Qed.
+Print Assumptions C18_alias_exists.
+
+Example C18_alias_minor_ten : forall t,
+  In (0%nat, 1%nat, t) (aliases_gen [ {| v_name := 0; v_major := 1; v_minor := 9; v_id := 0 |}; {| v_name := 0; v_major := 1; v_minor := 10; v_id := 1 |};
+                                      {| v_name := 0; v_major := 1; v_minor := 2; v_id := 2 |}; {| v_name := 0; v_major := 1; v_minor := 11; v_id := 3 |} ]) ->
+  v_id t = 3%nat.
+Proof. exact alias_minor_ten. Qed.
 
 (* the gap, stated precisely: elements of composite arrays are not isinstance-checked by the template (both variants) *)
 Theorem C18_composite_array_elem_unchecked : forall q,
